@@ -309,6 +309,11 @@ class PSpline2D(PenalizedSystem2D):
             rhs = rhs + rhs_extra
 
         self.coef = spsolve(self.basis._make_btwb(weights) + penalty, rhs)
+        if not np.isfinite(self.coef.dot(self.coef)):
+            # spsolve returns NaN values rather than raising an error for a singular system
+            raise np.linalg.LinAlgError(
+                'non-finite value encountered when solving the penalized spline system'
+            )
         output = (
             self.basis.basis_r @ self.coef.reshape(self.basis._num_bases) @ self.basis.basis_c.T
         )
